@@ -129,6 +129,12 @@ pub trait DecisionNNFBuilder<'a>: TopDownBuilder<'a, BddPtr<'a>> {
 
         let mut r = self.topdown_h(cnf, &mut sat, 0, &mut FxHashMap::default());
 
+        // an unsatisfiable residual formula is the false constant, with or
+        // without implied literals in front of it
+        if r.is_false() {
+            return BddPtr::false_ptr();
+        }
+
         // conjoin in any initially implied literals
         for l in sat.difference_iter() {
             let node = if l.polarity() {
